@@ -98,6 +98,34 @@ fn errno_item(only: Option<&Value>) -> MResult<ItemResult> {
             if res.samples.len() < 2 { res.sample(json!({"case": desc, "id": ret, "errorinfo": obs.cerr})); }
         }
     }
+    // "errno of the failing system call" when that errno is ENOSYS: kernels / seccomp profiles without symlinkat, mknodat, linkat
+    for wname in ["K-nosys", "E-nosys"] {
+        let mut deny: Vec<String> = vec!["symlinkat".into(), "mknodat".into(), "linkat".into()];
+        if wname.starts_with('E') { deny.push("openat2".into()); }
+        let mut w = Wk::spawn(wname, &Setup { jail: JAIL.into(), deny, ..Default::default() })?;
+        let c = |n: &str| Op::new(n).capi().root(ROOT_IN);
+        let cases2: Vec<(&str, Op)> = vec![
+            ("syscall-errno(ENOSYS symlinkat)", c("symlink").path("newl").path2("f")),
+            ("syscall-errno(ENOSYS mknodat)", c("mknod").path("newp").mode(libc::S_IFIFO | 0o644)),
+            ("syscall-errno(ENOSYS linkat)", c("hardlink").path("newh").path2("f")),
+        ];
+        for (ci, (what, op)) in cases2.iter().enumerate() {
+            if let Some(o) = only { if o["case_index"].as_u64() != Some(100 + ci as u64) || o["worker"].as_str() != Some(wname) { continue; } }
+            clear_dir(&root_out)?;
+            TreeSpec::default().dir("a").file("f").build(&root_out)?;
+            let obs = w.one(op.clone())?;
+            res.evaluations += 1; res.nontrivial += 1; res.transitions += 1;
+            let desc = format!("{} {} [{}]", wname, op.brief(), what);
+            let replay = json!({"engine": "errno", "item": 1, "case_index": 100 + ci, "worker": wname, "op": op});
+            res.outcome(format!("{}:{}", what, obs.cerr.as_ref().map(|e| errname(e.errno as i32)).unwrap_or_else(|| "ok".into())));
+            if let Some(p) = &obs.panic { res.violate("panic:nosys".to_string(), format!("{}: panic {}", desc, p), replay); continue; }
+            if obs.ok { res.violate(format!("no-error:{}", what), format!("{}: succeeded although the system call is unavailable", desc), replay); continue; }
+            match &obs.cerr {
+                None => res.violate("errorinfo-null:nosys".to_string(), format!("{}: pathrs_errorinfo returned NULL for a fresh id", desc), replay),
+                Some(ce) => if ce.errno as i32 != libc::ENOSYS { res.violate(format!("errno:{}:{}", what, errname(ce.errno as i32)), format!("{}: errorinfo errno {} ({}), expected ENOSYS - the errno of the failing system call", desc, errname(ce.errno as i32), ce.desc), replay); },
+            }
+        }
+    }
     res.states = res.evaluations;
     res.traces_validated = res.evaluations;
     Ok(res)
